@@ -429,7 +429,10 @@ func evalC16(c *Ctx, cs *Case) {
 				for _, strict := range []bool{false, true} {
 					vargs := []string{"verify"}
 					if strict {
-						vargs = append(vargs, "--strict")
+						vargs = append(vargs, []string{"--strict", "--strict=true"}[r.Intn(2)])
+					} else if r.Intn(2) == 0 {
+						vargs = append(vargs, []string{"--strict=false", "--strict=0"}[r.Intn(2)]) // given, and off
+						c.Count("boolean_flag_given_as_false", 1)
 					}
 					vcwd := jc.Target
 					if withTarget {
@@ -573,6 +576,11 @@ func c16Usage(c *Ctx, cs *Case) {
 		{"template", "stray"},
 		{"nosuchcommand"},
 		{"output", "--file", j.Root}, // a directory: read error
+		{"output", ""},               // a stray argument of length zero is still a stray argument
+		{"output", "", "stray"},
+		{"mkdir", "--dry-run", ""},
+		{"verify", ""},
+		{"output", "--", ""},
 	}
 	for _, args := range cases {
 		res := runCLI(c, j.Target, doc, "", args...)
@@ -711,6 +719,27 @@ func c16Strace(c *Ctx, cs *Case) {
 		exit, se, inj, _ := run(j.Target, filepath.Join(j.Root, "stdout.txt"), []string{"-P", p, "-e", "trace=openat", "-e", "inject=openat:error=EACCES:when=1"}, "mkdir", "-e", ".gz")
 		judge("strace[openat EACCES] mkdir -e .gz", 1, exit, se, inj)
 		j.Remove()
+	}
+	// (4) EACCES on the N-th directory listing while verifying a tree that IS there: the walk could
+	// not look, so the command must not claim success
+	for _, strict := range []bool{false, true} {
+		for n := 1; n <= 25; n++ {
+			j, err := mon.NewJail(c.TmpDir, true)
+			if err != nil {
+				return
+			}
+			mkdirCall(mkdirRoutes[0], string(doc), nil, fsOpts(j.Target, exts, true, false, false, false))
+			args := []string{"verify"}
+			if strict {
+				args = append(args, "--strict")
+			}
+			exit, se, inj, _ := run(j.Target, filepath.Join(j.Root, "stdout.txt"), []string{"-e", "trace=getdents64", "-e", "inject=getdents64:error=EACCES:when=" + strconv.Itoa(n)}, args...)
+			injected := judge("strace[getdents64 EACCES] "+strings.Join(args, " "), n, exit, se, inj)
+			j.Remove()
+			if !injected {
+				break
+			}
+		}
 	}
 	cs.N = nil
 	if c.WantSample(cs.Kind) {
